@@ -1,8 +1,17 @@
 //! C14 — every error code maps to the ESR bit of its IEEE 488.2 class.
+use crate::bytes::escape;
+use crate::conv::{IntTy, Target};
 use crate::engine::{CheckResult, Engine, Obs, PropertyMeta};
-use crate::model::esr::class_bit;
+use crate::fixtree::{fixed_message, FIXTREE};
+use crate::gen::msg::Msg;
+use crate::model::esr::{class_bit, is_command_error, is_execution_error};
+use crate::rec::{LogDev, Pull, PullAs, UnitPlan};
 use crate::{ensure, fail};
+use arrayvec::ArrayVec;
+use proptest::prelude::*;
 use scpi::error::{Error, ErrorCode};
+use scpi::Context;
+use serde::{Deserialize, Serialize};
 
 pub fn meta() -> PropertyMeta {
     PropertyMeta {
@@ -54,6 +63,105 @@ fn check_code(code: &i32, obs: &Obs) -> CheckResult {
     Ok(())
 }
 
+#[derive(Clone, Debug, Serialize, Deserialize, Hash)]
+pub enum Fault {
+    /// a lexical corruption of a well-formed message (command error)
+    Lexical { msg: Msg, op: u8, pos: u32, byte: u8 },
+    /// `:A <datum>` pulled with a conversion that must reject it
+    Typed { datum: String, pull: PullAs, execution: bool },
+    /// header faults and arity faults (command error)
+    Header { text: String },
+    /// a response that does not fit the buffer (execution error -225)
+    Buffer { cap: u8 },
+}
+
+fn check_fault(f: &Fault, obs: &Obs) -> CheckResult {
+    let (bytes, plan, want_exec): (Vec<u8>, UnitPlan, bool) = match f {
+        Fault::Lexical { msg, op, pos, byte } => {
+            let Some(c) = crate::props::c04::corrupt(msg, *op, *pos, *byte) else { fail!("harness-corrupt", "no corruption applies") };
+            obs.label("fault: lexical");
+            (c.bytes, UnitPlan::greedy(), false)
+        }
+        Fault::Typed { datum, pull, execution } => {
+            obs.label(if *execution { "fault: value (range / not in set)" } else { "fault: element type" });
+            (format!(":A {datum}").into_bytes(), UnitPlan { pulls: vec![Pull { optional: false, as_: *pull }], ..Default::default() }, *execution)
+        }
+        Fault::Header { text } => {
+            obs.label("fault: header / arity");
+            (text.clone().into_bytes(), UnitPlan::default(), false)
+        }
+        Fault::Buffer { cap } => {
+            obs.label("fault: response buffer exhausted");
+            let mut dev = LogDev::default();
+            dev.default_plan = UnitPlan { respond: vec![crate::rec::RespDatum::Str("0123456789".into())], ..Default::default() };
+            let mut ctx = Context::default();
+            let res = match cap % 4 {
+                0 => FIXTREE.run(b":A?", &mut dev, &mut ctx, &mut ArrayVec::<u8, 0>::new()),
+                1 => FIXTREE.run(b":A?", &mut dev, &mut ctx, &mut ArrayVec::<u8, 1>::new()),
+                2 => FIXTREE.run(b":A?", &mut dev, &mut ctx, &mut ArrayVec::<u8, 11>::new()),
+                _ => FIXTREE.run(b":A?;:A?", &mut dev, &mut ctx, &mut ArrayVec::<u8, 13>::new()),
+            };
+            obs.nontrivial(f);
+            return match res {
+                Err(e) => judge_error(&e, true, "response buffer exhausted", obs),
+                Ok(()) => fail!("fault-accepted", "a 12-byte response fitted a smaller buffer"),
+            };
+        }
+    };
+    obs.nontrivial(f);
+    let mut dev = LogDev::default();
+    dev.default_plan = plan;
+    let mut ctx = Context::default();
+    let mut resp: Vec<u8> = Vec::new();
+    match FIXTREE.run(&bytes, &mut dev, &mut ctx, &mut resp) {
+        Ok(()) => fail!("fault-accepted", "{:?}: a faulty message executes successfully", escape(&bytes)),
+        Err(e) => judge_error(&e, want_exec, &escape(&bytes), obs),
+    }
+}
+
+fn judge_error(e: &Error, want_exec: bool, what: &str, _obs: &Obs) -> CheckResult {
+    let c = e.get_code();
+    if want_exec {
+        ensure!(is_execution_error(c), "library-error-class", "{what:?}: a value fault is reported as {c}, which is not an execution error (-200..-299)");
+    } else {
+        ensure!(is_command_error(c), "library-error-class", "{what:?}: a syntax / header / type fault is reported as {c}, which is not a command error (-100..-199)");
+    }
+    ensure!(e.esr_mask() == class_bit(c), "esr-mask", "{what:?}: error {c} has esr_mask {:#04x}, class bit {:#04x}", e.esr_mask(), class_bit(c));
+    match ErrorCode::get_error(c) {
+        Some(s) => ensure!(s.get_code() == c, "lookup-code", "get_error({c}) reports {}", s.get_code()),
+        None => fail!("lookup-missing", "{what:?}: the library raised {c}, but get_error({c}) is None"),
+    }
+    Ok(())
+}
+
+fn fault_strategy() -> impl Strategy<Value = Fault> {
+    let typed = prop_oneof![
+        // element type not accepted by the target: command error
+        (prop_oneof![Just("\"str\""), Just("'x'"), Just("(1,2)"), Just("#13abc"), Just("XYZ"), Just("1 V"), Just("1.5KHZ")], prop_oneof![Just(PullAs::To(Target::Int(IntTy::I32))), Just(PullAs::To(Target::Int(IntTy::U8))), Just(PullAs::DataI32), Just(PullAs::To(Target::F64)), Just(PullAs::DataF64)])
+            .prop_map(|(d, pull)| Fault::Typed { datum: d.to_string(), pull, execution: false }),
+        (prop_oneof![Just("1"), Just("ON"), Just("#H1F"), Just("(1)"), Just("#11a")], prop_oneof![Just(PullAs::To(Target::Bytes)), Just(PullAs::DataBytes), Just(PullAs::To(Target::Expr)), Just(PullAs::To(Target::Arb))])
+            .prop_filter("kind must mismatch", |(d, p)| !((*d == "(1)" && *p == PullAs::To(Target::Expr)) || (*d == "#11a" && *p == PullAs::To(Target::Arb))))
+            .prop_map(|(d, pull)| Fault::Typed { datum: d.to_string(), pull, execution: false }),
+        (prop_oneof![Just("\"s\""), Just("1"), Just("(1)")], prop_oneof![Just(PullAs::Enum), Just(PullAs::To(Target::Chr))]).prop_map(|(d, pull)| Fault::Typed { datum: d.to_string(), pull, execution: false }),
+        // value faults: execution error
+        (prop_oneof![Just("1e30".to_string()), Just("-1e30".to_string()), Just("2147483648".to_string()), Just("-2147483649".to_string()), Just("#HFFFFFFFFF".to_string()), (2147483648i64..1i64 << 40).prop_map(|v| v.to_string())], prop_oneof![Just(PullAs::DataI32), Just(PullAs::To(Target::Int(IntTy::I32)))])
+            .prop_map(|(datum, pull)| Fault::Typed { datum, pull, execution: true }),
+        (prop_oneof![Just("256".to_string()), Just("-1".to_string()), Just("255.6".to_string()), Just("#H100".to_string()), (256i32..100000).prop_map(|v| v.to_string())], Just(PullAs::To(Target::Int(IntTy::U8)))).prop_map(|(datum, pull)| Fault::Typed { datum, pull, execution: true }),
+        ("[A-Z]{5,9}", prop_oneof![Just(PullAs::Enum), Just(PullAs::To(Target::Bool)), Just(PullAs::Auto)]).prop_map(|(datum, pull)| Fault::Typed { datum, pull, execution: true }),
+        (prop_oneof![Just("1 XYZ"), Just("1 HZ"), Just("2.5 KOHM")], Just(PullAs::Volt)).prop_map(|(d, pull)| Fault::Typed { datum: d.to_string(), pull, execution: true }),
+    ];
+    let header = prop_oneof![
+        Just(":FOO"), Just(":A:B"), Just(":B:Q"), Just("*ZZZ"), Just(":OUTP3"), Just(":A 1"), Just(":A 1,2"), Just(":B:C:D 'x'"), Just(":A;:ZZ"), Just("A::B"), Just(":A,1"), Just("*X:A"),
+    ]
+    .prop_map(|t| Fault::Header { text: t.to_string() });
+    prop_oneof![
+        6 => (fixed_message(any::<bool>().boxed(), 4, 4, false, false), 0u8..21, any::<u32>(), any::<u8>()).prop_map(|(msg, op, pos, byte)| Fault::Lexical { msg, op, pos, byte }),
+        5 => typed,
+        2 => header,
+        1 => any::<u8>().prop_map(|cap| Fault::Buffer { cap }),
+    ]
+}
+
 fn run(e: &Engine) {
     e.enumerate::<i32, _, _>(
         "codes",
@@ -68,4 +176,11 @@ fn run(e: &Engine) {
         },
         check_code,
     );
+    // errors the library itself raises for faults of known kind
+    e.proptest("labelled-error-stream", e.tier.pick(120_000, 5_000_000), fault_strategy, check_fault);
+    for l in ["fault: lexical", "fault: element type", "fault: value (range / not in set)", "fault: header / arity", "fault: response buffer exhausted"] {
+        if !e.replay_only && !e.failed() && e.label_count(l) < 1000 {
+            e.harness_error(format!("generator unhealthy: only {} labelled {l:?}", e.label_count(l)));
+        }
+    }
 }
